@@ -194,7 +194,7 @@ impl Language for Go {
         writeln!(
             w,
             "type {} {}\n",
-            self.acronyms_to_uppercase(&ty.id.original),
+            self.acronyms_to_uppercase(&ty.id.renamed),
             self.format_type(&ty.r#type, &[])
                 .map_err(|e| std::io::Error::new(std::io::ErrorKind::Other, e))?
         )?;
